@@ -241,6 +241,26 @@ def run_souden_wmwf(key):
             bad = tol.mismatch(ww[f], wantw, rt * 10, what=f'WMWF(mu={mu}) vs rank-one closed form')
             if bad:
                 return viol(bad)
+        # the reference given as a channel selection vector: a unit vector reproduces reference_channel, a general
+        # vector gives the corresponding combination of the per-channel filters (shape (F, D), one row per bin)
+        if rc is not None:
+            e_sel = np.zeros((F, D))
+            e_sel[:, rc] = 1.0
+            try:
+                w_sel = np.asarray(bf.get_wmwf_vector(Pxx, Pnn, channel_selection_vector=e_sel, distortion_weight=mu))
+                if rc == 0:
+                    per = [np.asarray(bf.get_wmwf_vector(Pxx, Pnn, reference_channel=r_, distortion_weight=mu))
+                           for r_ in range(D)]
+                    u = (np.arange(1, D + 1)[None, :] * (1.0 + np.arange(F))[:, None]).astype(float)
+                    w_mix = np.asarray(bf.get_wmwf_vector(Pxx, Pnn, channel_selection_vector=u, distortion_weight=mu))
+            except Exception as e:  # noqa
+                return viol(f'get_wmwf_vector(channel_selection_vector=...) raised {e!r}')
+            bad = tol.mismatch(w_sel, ww, rt, what='WMWF with a unit channel_selection_vector vs reference_channel')
+            if not bad and rc == 0:
+                want_mix = sum(u[:, r_, None] * per[r_] for r_ in range(D))
+                bad = tol.mismatch(w_mix, want_mix, rt * 10, what='WMWF with a general channel_selection_vector')
+            if bad:
+                return viol(bad)
         # a stack of problems along an extra leading (source) axis: every slice is the single-problem result
         if rc is not None:
             PxxS = np.ascontiguousarray(np.stack([Pxx, 2.0 * Pxx, Pxx[::-1]]))
